@@ -1,9 +1,62 @@
 //! C06 — serialize/deserialize at any point of a stream preserves all future outputs.
 use super::util::*;
 use crate::case::{Case, Failure, Op};
-use crate::ind;
+use crate::ind::{self, Ind, B};
 use crate::rec::Rec;
+use crate::rng::Rng;
 use crate::runner::{Runner, Tier};
+
+/// per-step cost O(period): big windows are only driven through warm-up / at moderate sizes
+fn slow(name: &str) -> bool {
+    matches!(name, "MeanAbsoluteDeviation" | "CommodityChannelIndex" | "EfficiencyRatio")
+}
+
+/// kinds long-continuation and large-window: the stream is regenerated from a seed (it is too long to store),
+/// extra = [seed, total number of inputs, tick value, tick position 1, tick position 2, checkpoint 1..4]
+/// (a position of -1 = unused; a checkpoint at k is taken after k inputs, 0 = on the fresh instance).
+/// Ordinary prices 100 ± 10 with the (huge) tick value at the tick positions. Every restored copy runs alongside
+/// the original to the end of the stream. Driven directly: nothing of this is logged for the model replay.
+fn check_seeded(case: &Case) -> Option<Failure> {
+    let e = &case.extra;
+    let seed = e[0] as u64;
+    let total = e[1] as usize;
+    let tick = e[2];
+    let ticks: Vec<usize> = e[3..5].iter().filter(|x| **x >= 0.0).map(|x| *x as usize).collect();
+    let cps: Vec<usize> = e[5..9].iter().filter(|x| **x >= 0.0).map(|x| *x as usize).collect();
+    let mut rng = Rng::new(seed);
+    let mut a = Ind::create(&case.ind, &case.ps, &case.ms).unwrap().unwrap();
+    let bars = !a.has_next();
+    let mut copies: Vec<(Ind, usize)> = vec![];
+    for t in 0..=total {
+        if cps.contains(&t) {
+            let bytes = a.ser();
+            let c = match Ind::de(&case.ind, &bytes) {
+                Some(c) => c,
+                None => return fail(case, "decode-failed", format!("deserialize failed at the checkpoint after {} inputs ({} bytes)", t, bytes.len())),
+            };
+            if c.display() != a.display() || c.period() != a.period() || c.multiplier().map(|x| x.to_bits()) != a.multiplier().map(|x| x.to_bits()) {
+                return fail(case, "params-changed", format!("checkpoint after {} inputs: parameters {:?}/{:?}/{} became {:?}/{:?}/{}", t, a.period(), a.multiplier(), a.display(), c.period(), c.multiplier(), c.display()));
+            }
+            if c.ser() != bytes {
+                return fail(case, "roundtrip-unstable", format!("checkpoint after {} inputs: second round-trip changes the serialized form", t));
+            }
+            copies.push((c, t));
+        }
+        if t == total {
+            break;
+        }
+        let x = if ticks.contains(&t) { tick } else { 100.0 + (rng.unit() - 0.5) * 20.0 };
+        let b = B { o: x, h: x + 1.0, l: x - 0.4, c: x + 0.3, v: 10.0 + (t % 5) as f64 };
+        let want = if bars { a.next_bar(&b) } else { a.next(x) };
+        for (c, at) in copies.iter_mut() {
+            let got = if bars { c.next_bar(&b) } else { c.next(x) };
+            if !all_close(&got, &want, 1e-12) {
+                return fail(case, "restored-differs", format!("input #{} ({}; {:e} ticks at {:?}): copy restored after {} inputs gives {:?}, original gives {:?}", t, x, tick, ticks, at, got, want));
+            }
+        }
+    }
+    None
+}
 
 pub fn check(case: &Case, rec: &mut Rec) -> Option<Failure> {
     if case.kind == "dataitem" {
@@ -18,6 +71,9 @@ pub fn check(case: &Case, rec: &mut Rec) -> Option<Failure> {
             }
         }
         return None;
+    }
+    if case.kind == "long-continuation" || case.kind == "large-window" {
+        return check_seeded(case);
     }
     let a = match mk(case, rec) {
         Ok(i) => i,
@@ -123,6 +179,57 @@ pub fn generate(r: &mut Runner) {
             }
         }
     }
+    // long continuations after the checkpoint on an ill-conditioned state: state that is not carried by the bytes may
+    // only be consulted every 2^k calls, and what it does is only visible when the running sums carry a rounding
+    // residue (a 1e17 / 1e18 tick somewhere in the history and/or early in the continuation)
+    r.log_every = u64::MAX;
+    let seedf = |r: &mut Runner| (r.rng.u64() % (1 << 50)) as f64;
+    let rounds = if r.tier == Tier::Quick { 1 } else { 4 };
+    for _ in 0..rounds {
+        for name in ind::NAMES {
+            let mut conts: Vec<usize> = vec![9000 + r.rng.below(2000), 9000 + r.rng.below(2000), 70_000 + r.rng.below(5000)];
+            if r.tier == Tier::Thorough {
+                conts.push((1 << 20) + r.rng.range(1, 70_000));
+            }
+            for (k, cl) in conts.into_iter().enumerate() {
+                let (ps, ms) = crate::diff::params_for(&mut r.rng, name, if k == 0 { 4 } else { 64 });
+                let mx = ps.iter().copied().max().unwrap_or(1);
+                let cl = if slow(name) { cl.min(200_000) } else { cl };
+                let hl = r.rng.range(1, 400);
+                let mut c = Case::new("C06", "long-continuation", name, &ps, &ms);
+                let t1 = r.rng.below(hl) as f64;
+                let t2 = if r.rng.chance(0.5) { (hl + r.rng.below(cl / 3)) as f64 } else { -1.0 };
+                // checkpoints: after the history, a random number of inputs later, sometimes on the fresh instance
+                let cp2 = (hl + r.rng.range(1, 5000)) as f64;
+                let cp3 = if r.rng.chance(0.3) { 0.0 } else { -1.0 };
+                c.extra = vec![seedf(r), (hl + cl.max(mx + 2)) as f64, *r.rng.pick(&[1e17, 1e18]), t1, t2, hl as f64, cp2, cp3, -1.0];
+                r.steps += (hl + cl) as u64;
+                r.run(c, true);
+            }
+        }
+    }
+    // big windows: periods beyond 2^12 / 2^13 / 2^16 values (sizes at which a length limit, a chunked or a compressed
+    // encoding of the window would start to matter), checkpoints fresh / in warm-up / on the full window
+    let big: &[usize] = if r.tier == Tier::Quick { &[4097, 5000, 10_000, 65_536] } else { &[4097, 5000, 10_000, 65_536, 65_537, 200_000] };
+    for name in ind::NAMES {
+        let (np, _) = ind::arity(name).unwrap();
+        if np == 0 {
+            continue;
+        }
+        for &p in big {
+            let (mut ps, ms) = crate::diff::params_for(&mut r.rng, name, 16);
+            for q in ps.iter_mut() {
+                *q = p;
+            }
+            let mut c = Case::new("C06", "large-window", name, &ps, &ms);
+            let full = !(slow(name) && p > if r.tier == Tier::Quick { 5000 } else { 10_000 });
+            let (total, cps) = if full { (2 * p + 5 + r.rng.below(10), [0.0, 3.0, (p / 2) as f64, (p + 3) as f64]) } else { (120, [0.0, 3.0, 40.0, -1.0]) };
+            let t1 = if r.rng.chance(0.5) { r.rng.below(total) as f64 } else { -1.0 };
+            c.extra = vec![seedf(r), total as f64, 1e17, t1, -1.0, cps[0], cps[1], cps[2], cps[3]];
+            r.steps += total as u64;
+            r.run(c, true);
+        }
+    }
     let dcases = if r.tier == Tier::Quick { 200 } else { 5000 };
     for _ in 0..dcases {
         let mut c = Case::new("C06", "dataitem", "DataItem", &[], &[]);
@@ -137,4 +244,4 @@ pub fn generate(r: &mut Runner) {
     }
 }
 
-pub const RULE: &str = "every-prefix: for periods 1..=4 a checkpoint (bincode serialize + deserialize) is taken on the fresh instance, after EVERY input of a history of 2n+3 inputs, and right after a reset; every restored copy is then fed all remaining inputs plus a continuation of >= n+2 inputs alongside the original (1e-12 relative, NaN = NaN), parameters and Display compared, and each copy is round-tripped a second time (bytes must be stable). random-position: periods to 64, histories to 400 inputs (2% non-finite in one case of seven), one checkpoint. boundary-period: periods 2^32-1, 2^32, 2^32+9, 2^53+1, usize::MAX-1, usize::MAX in each position for the allocation-free constructors, checkpoints on the fresh instance and after 5 inputs. dataitem: built DataItems round-trip to an equal value. All cases non-trivial.";
+pub const RULE: &str = "every-prefix: for periods 1..=4 a checkpoint (bincode serialize + deserialize) is taken on the fresh instance, after EVERY input of a history of 2n+3 inputs, and right after a reset; every restored copy is then fed all remaining inputs plus a continuation of >= n+2 inputs alongside the original (1e-12 relative, NaN = NaN), parameters and Display compared, and each copy is round-tripped a second time (bytes must be stable). random-position: periods to 64, histories to 400 inputs (2% non-finite in one case of seven), one checkpoint. boundary-period: periods 2^32-1, 2^32, 2^32+9, 2^53+1, usize::MAX-1, usize::MAX in each position for the allocation-free constructors, checkpoints on the fresh instance and after 5 inputs. long-continuation (stream regenerated from a seed in extra): all 22 indicators, periods to 4 / to 64, a history of 1..400 ordinary prices containing one 1e17 or 1e18 tick at a random position (so that it has usually left the window: the running sums carry a rounding residue), checkpoints after the history, 1..5000 inputs later and (30%) on the fresh instance, then a continuation of 9000..11000 (twice) and 70000..75000 inputs (thorough: also 2^20+k; capped at 200000 for the O(period)-per-step indicators), half of them with a second tick in the first third; every restored copy runs alongside the original to the end (1e-12 relative). large-window (seeded too): every indicator with a period, all periods set to 4097, 5000, 10000, 65536 (thorough: also 65537, 200000): checkpoints on the fresh instance, after 3 inputs, after period/2 and after period+3 inputs (full window), stream of 2·period+5.. inputs, half of them with one 1e17 tick (for MeanAbsoluteDeviation / CommodityChannelIndex / EfficiencyRatio beyond period 5000 (thorough 10000): checkpoints fresh, after 3 and after 40 inputs, 120 inputs); decode must succeed, parameters / Display equal, second round-trip byte-stable, outputs 1e-12 relative. dataitem: built DataItems round-trip to an equal value. All cases non-trivial.";
